@@ -37,12 +37,18 @@ PROFILES = {
 def draw_cfg(rng, prop: str, tier: str, overrides=None) -> dict:
     cfg = {}
     # slots: primary + optional secondary + optional scratch
-    primary = rng.choices(["plain", "hook", "typed", "fwd", "sub", "tsub"],
-                          weights=[40, 15, 20, 5, 10, 10])[0]
+    names = ["plain", "hook", "typed", "fwd", "sub", "tsub"]
+    weights = [40, 15, 20, 5, 10, 10]
+    if prop in ("C05", "C12"):
+        names.append("fs")
+        weights.append(12)
+    primary = rng.choices(names, weights=weights)[0]
     slots = [primary]
     r = rng.random()
     if r < 0.6:
-        if primary in ("typed", "tsub"):
+        if primary == "fs":
+            second = "fs"
+        elif primary in ("typed", "tsub"):
             second = rng.choice(["typed", "typed", "plain"])
         else:
             second = rng.choice(["plain", "plain", "hook", "sub", "typed"])
@@ -54,6 +60,8 @@ def draw_cfg(rng, prop: str, tier: str, overrides=None) -> dict:
     for f, p in (("i", 0.3), ("t", 0.35), ("d", 0.3), ("w", 0.3), ("o", 0.35)):
         if rng.random() < p:
             flav.append(f)
+    if primary == "fs":
+        flav = ["f"]  # the FileSystemTree mappers only know FileSystemEntry data
     cfg["flavours"] = flav
     cfg["ids"] = rng.sample(IDS, rng.choice([0, 2, 3, 4]))
     cfg["p_explicit_id"] = rng.choice([0.0, 0.1, 0.3]) if cfg["ids"] else 0.0
@@ -101,6 +109,8 @@ def _keys_of_flavour(f, cfg):
         return ["w:1", "w:2", "w:3"]
     if f == "o":
         return ["o:1", "o:2", "o:3"]
+    if f == "f":
+        return ["f:1", "f:2", "f:3", "g:1", "g:2"]
     return []
 
 
